@@ -58,7 +58,7 @@ impl TypeChecker {
             Expr::Constructor(name, args) => self.check_constructor(name, args, expr.span),
             Expr::FString(parts) => {
                 for part in parts {
-                    if let FStringPart::Expr(e) = part {
+                    if let FStringPart::Expr(e) | FStringPart::DebugExpr(e) = part {
                         self.check_expr(e);
                     }
                 }
